@@ -692,6 +692,10 @@ def one_prior(ctx, d, units=None, seeds=None, cfg=None, label="gen", mp_queue=No
         fresh = build(d2)
         _ = (p.lower_unit_limit, p.upper_unit_limit)
         derived = [("with_message", p.with_message(fresh.message), fresh), ("new", p.new(), p)]
+        if k == "U" and math.isfinite(L) and math.isfinite(U) and L + 0.25 * (U - L) < L + 0.75 * (U - L):
+            # tightened limits (prior passing, sensitivity cells): the uniform prior on the new limits
+            lo2, hi2 = L + 0.25 * (U - L), L + 0.75 * (U - L)
+            derived.append(("with_limits", p.with_limits(lo2, hi2), build(dict(d, lo=lo2, hi=hi2))))
     except Exception as e:  # noqa
         ctx.hit("derived-unavailable:" + type(e).__name__)
         derived = []
